@@ -66,7 +66,15 @@ func VerifH_C16_call_parameter() {
 	var asFloat float64
 	exactInt := false
 	var asInt int64
-	switch verifChoose(4) {
+	isU := false
+	var asU uint64
+	switch verifChoose(6) {
+	case 4:
+		x := verifNondetUint64()
+		v, asU, isU = Value{kind: valueNumber, value: x}, x, true
+	case 5:
+		x := verifNondetUint()
+		v, asU, isU = Value{kind: valueNumber, value: x}, uint64(x), true
 	case 0:
 		x := verifNondetFloat64()
 		v, asFloat = numV(x), x
@@ -86,6 +94,9 @@ func VerifH_C16_call_parameter() {
 		reflect.TypeOf(float64(0)), reflect.TypeOf(float32(0)),
 	}
 	k := verifChoose(len(types))
+	if isU {
+		verifAssume(k <= 9) // full-width unsigned sources: integer parameter kinds
+	}
 	var rv reflect.Value
 	var err error
 	kind, _ := verifCatch(func() { rv, err = vm.runtime.convertCallParameter(v, types[k]) })
@@ -97,6 +108,11 @@ func VerifH_C16_call_parameter() {
 	}
 	verifCover("converted")
 	switch {
+	case isU && k <= 4:
+		got := rv.Int()
+		verifAssert(got >= 0 && uint64(got) == asU, "signed parameter from an unsigned source: exactly the integer (no wrap above MaxInt64)")
+	case isU:
+		verifAssert(rv.Uint() == asU, "unsigned parameter from an unsigned source: exactly the integer")
 	case k <= 4:
 		got := rv.Int()
 		if exactInt {
@@ -128,7 +144,7 @@ func VerifH_C16_slice_write() {
 	vm := New()
 	x := verifNondetFloat64()
 	vm.Set("x", x)
-	idx := verifChoose(4) // 3 is one past the end
+	idx := verifChoose(6) // 3 is one past the end (append), 4 and 5 leave a gap
 	vm.Set("i", idx)
 	switch verifChoose(3) {
 	case 0:
@@ -166,13 +182,38 @@ func VerifH_C16_slice_write() {
 	default:
 		sl := []float64{1, 2, 3}
 		vm.Set("sl", sl)
-		kind, _ := verifCatch(func() { vm.Run("sl[i] = x") })
+		var werr error
+		kind, _ := verifCatch(func() { _, werr = vm.Run("sl[i] = x") })
 		verifCover("reached")
 		if idx < 3 && kind == verifNormal {
 			verifAssert(sameF64(sl[idx], x), "float64 element: x stored unchanged")
 			r, _ := vm.Run("sl[i]")
 			rf, _ := r.ToFloat()
 			verifAssert(sameF64(rf, x), "and read back")
+		}
+		if idx >= 3 && kind == verifNormal && werr == nil {
+			// a write at or past the end: appended at exactly that index (idx == len),
+			// or - a slice cannot hold a gap - not performed at all (a failed
+			// non-strict [[Put]] is silent); never stored somewhere else
+			r, _ := vm.Run("sl[i]")
+			rf, _ := r.ToFloat()
+			l, _ := vm.Run("sl.length")
+			lf, _ := l.ToFloat()
+			stored := r.IsNumber() && sameF64(rf, x) && lf == float64(idx+1)
+			ignored := r.IsUndefined() && lf == 3
+			verifAssert(stored || ignored, "a write past the end lands at exactly that index or changes nothing")
+			for j := 0; j < 3; j++ {
+				e, _ := vm.Run("sl[" + verifItoa(int64(j)) + "]")
+				ef, _ := e.ToFloat()
+				verifAssert(ef == float64(j+1), "existing elements untouched by a write past the end")
+			}
+			if ignored {
+				// the checked form of the same store reports the refusal
+				d, _ := vm.Run("var res = 'stored'; try { Object.defineProperty(sl, String(i), {value: x}) } catch (e) { res = e instanceof TypeError ? 'TypeError' : 'other' } res")
+				l2, _ := vm.Run("sl.length")
+				l2f, _ := l2.ToFloat()
+				verifAssert(d.String() == "TypeError" && l2f == 3, "defineProperty past the end is refused with a TypeError and changes nothing")
+			}
 		}
 	}
 }
